@@ -408,6 +408,9 @@ func runOne(family, mode string, cfg Config, strat vsched.Strategy, inj Inject) 
 	return rec
 }
 
+// runs that ended "stalled" (the scheduler gave up: an actor blocked in a primitive the shims do not model)
+var stalledRuns int
+
 type collector struct {
 	seen  map[string]*RunRec
 	order []string
@@ -415,6 +418,10 @@ type collector struct {
 }
 
 func (c *collector) add(r *RunRec) {
+	if r.End == "stalled" { // harness limit (vsched.Stalled), not an observation
+		stalledRuns++
+		return
+	}
 	c.runs++
 	b, _ := json.Marshal([]interface{}{r.Family, r.Prog, r.Init, r.Events, r.End, r.Final, r.L1, r.Inject})
 	k := string(b)
@@ -685,6 +692,10 @@ func main() {
 	}
 	w.Close()
 	res.Count("runs", int64(col.runs))
+	res.Count("stalled_runs", int64(stalledRuns))
+	if vsched.Stalled() {
+		res.Extra["controlled_execution"] = "given up: an actor blocked in a primitive the shims do not model (channel, unredirected lock)"
+	}
 	res.Count("distinct_traces", int64(len(col.order)))
 	res.Write(*out)
 }
